@@ -7,8 +7,10 @@ namespace coloquinte {
 
 void exportIspdAux(const std::string &filename) {
   std::ofstream f(filename + ".aux");
-  f << "RowBasedPlacement : " << filename << ".nodes " << filename << ".nets "
-    << filename << ".pl " << filename << ".scl" << std::endl;
+  // File names in the .aux file are relative to its directory
+  std::string base = filename.substr(filename.find_last_of('/') + 1);
+  f << "RowBasedPlacement : " << base << ".nodes " << base << ".nets " << base
+    << ".pl " << base << ".scl" << std::endl;
 }
 
 void exportIspdNodes(const Circuit &circuit, const std::string &filename) {
